@@ -271,7 +271,7 @@ var tagsFor = map[string][]string{
 var kinds = []string{"string", "string", "string", "int", "int", "bool", "pstring", "struct", "struct", "pstruct", "sstring", "sstring", "ssstring", "sint", "sstruct", "sstruct", "map"}
 
 func genType(r *hx.Rand, depth int) *TypeT {
-	return genTypeIn(r, depth, map[string]bool{}, depth < 2 && r.Chance(1, 5))
+	return genTypeIn(r, depth, map[string]bool{}, depth < 2 && r.Chance(1, 3))
 }
 
 // genTypeIn generates a struct type whose field names avoid `used`. With `embeds` the struct may
@@ -1298,7 +1298,7 @@ func emit(id string, c caseT, st *hx.Stats) string {
 		}
 	}
 	l.Tok("R").Nat(len(rules))
-	elemRule, contPanic := false, false
+	elemRule, contPanic, promotedRule := false, false, false
 	for _, r := range rules {
 		l.Str(r.path).Bool(r.resolves).Nat(len(r.tags))
 		var tagNames []string
@@ -1316,6 +1316,9 @@ func emit(id string, c caseT, st *hx.Stats) string {
 		}
 		if r.cpanic {
 			contPanic = true
+		}
+		if r.emb {
+			promotedRule = true
 		}
 	}
 	var full []fullT
@@ -1427,6 +1430,12 @@ func emit(id string, c caseT, st *hx.Stats) string {
 		if contPanic {
 			st.Count("container_rule_panics_on_element")
 		}
+		if promotedRule {
+			st.Count("rule_on_field_promoted_from_embedded_struct")
+		}
+		if hasEmbed(c.T) || c.Named == "FullE" {
+			st.Count("type_embeds_a_struct")
+		}
 		if c.MaxFields > 0 && len(o.leaves) > c.MaxFields {
 			st.Count("field_limit_cuts")
 		}
@@ -1436,6 +1445,18 @@ func emit(id string, c caseT, st *hx.Stats) string {
 		st.Count("depth_" + depthBucket(data))
 	}
 	return l.String() + hx.Comment(c)
+}
+
+func hasEmbed(t *TypeT) bool {
+	if t == nil {
+		return false
+	}
+	for _, f := range t.Fields {
+		if f.Embed || hasEmbed(f.Sub) {
+			return true
+		}
+	}
+	return false
 }
 
 func depthBucket(v any) string {
